@@ -15,6 +15,7 @@ from exabgp.bgp.message.notification import Notify
 from exabgp.bgp.message.update.attribute.sr.srv6.l2service import Srv6L2Service
 from exabgp.bgp.message.update.attribute.sr.srv6.l3service import Srv6L3Service
 from exabgp.bgp.message.update.attribute.sr.srv6.generic import GenericSrv6ServiceDataSubSubTlv
+from exabgp.util import json_members
 from exabgp.util.types import Buffer
 
 
@@ -143,7 +144,7 @@ class Srv6SidInformation:
 
     def json(self, compact: bool | None = None) -> str:
         s: str = '{{ "sid": "{}", "flags": 0, "endpoint_behavior": {}'.format(str(self.sid), self.behavior)
-        content: str = ', '.join(subsubtlv.json() for subsubtlv in self.subsubtlvs)
+        content: str = json_members(subsubtlv.json() for subsubtlv in self.subsubtlvs)
         if content:
             s += ', {}'.format(content)
         s += ' }'
